@@ -680,3 +680,52 @@ func calleeOnlyReads(site ssa.CallInstruction, a ssa.Value) bool {
 	}
 	return true
 }
+
+// ExpandConds resolves short-circuit conditions: a dominating condition that is a boolean phi
+// (a && b taken true, a || b taken false) pins the single incoming edge that can produce that
+// value; the value on that edge and the conditions dominating the edge's source block then hold too.
+func ExpandConds(conds []Cond) []Cond {
+	var out []Cond
+	seen := map[ssa.Value]bool{}
+	var add func(cd Cond, depth int)
+	add = func(cd Cond, depth int) {
+		out = append(out, cd)
+		phi, ok := cd.V.(*ssa.Phi)
+		if !ok || depth > 6 || seen[phi] {
+			return
+		}
+		seen[phi] = true
+		idx := -1
+		n := 0
+		for i, e := range phi.Edges {
+			if cv, isC := ConstBool(e); isC {
+				if cv == cd.Truth {
+					n++
+					idx = i
+				}
+				continue
+			}
+			n++
+			idx = i
+		}
+		if n != 1 {
+			return
+		}
+		e := phi.Edges[idx]
+		pred := phi.Block().Preds[idx]
+		if _, isC := e.(*ssa.Const); !isC {
+			add(Cond{V: e, Truth: cd.Truth}, depth+1)
+		}
+		for _, c2 := range DomConds(pred) {
+			add(c2, depth+1)
+		}
+		// the edge pred -> phi block itself, if conditional
+		if ifi, ok := pred.Instrs[len(pred.Instrs)-1].(*ssa.If); ok && pred.Succs[0] != pred.Succs[1] {
+			add(Cond{V: ifi.Cond, Truth: pred.Succs[0] == phi.Block(), If: ifi}, depth+1)
+		}
+	}
+	for _, cd := range conds {
+		add(cd, 0)
+	}
+	return out
+}
